@@ -1,6 +1,7 @@
 import Driver.Validate
 import Driver.TimeoutV
 import Driver.Oracle
+import Driver.Replay
 open Driver
 
 /-- Reads blocks `S <model>` … `.` from stdin, answers one verdict line per block. -/
@@ -15,6 +16,7 @@ def runBlock (hdr : String) (lines : Array String) : String :=
   match (hdr.splitOn " ").filter (· ≠ "") with
   | "S" :: "timeout" :: _ => (validate timeoutModel lines).render
   | "S" :: "oracle" :: _ => runOracle lines
+  | "S" :: "replay" :: "throttle" :: _ => Replay.Throttle.run ((hdr.splitOn " ").filter (· ≠ "")) lines
   | _ => "INCONCLUSIVE 0 unknown model: " ++ hdr
 
 partial def loop (h : IO.FS.Stream) : IO Unit := do
